@@ -17,7 +17,7 @@ LEVEL = "exploration"
 RULE = ("(1) square systems n 1..12 (SPD Gram / SPD diagonally dominant / diagonally dominant / nonsymmetric; entries dyadic "
         "rationals so that b = A x* is exact) handed over as dense, CSR (sorted and unsorted indices), CSC, COO with explicit "
         "zeros, index lists (None, subsets in any order, empty; list/tuple/int arrays), sweeps, 0..4 iterations; "
-        "(2) hierarchical spaces from generated refinement histories (dim 1-2, p 1-3, HB/THB, disparity inf/1/2, bdspecs "
+        "(2) hierarchical spaces from generated refinement histories (dim 1-2, p 1-4, HB/THB, disparity inf/1/2, bdspecs "
         "None/[]/faces) with A = I^T (K + c M) I through the reference representation matrix, all 4 strategies x 5 smoothers; "
         "(3) drivers iterative_solve / solve_hmultigrid / twogrid with drawn tolerances, iteration limits and starting vectors; "
         "distinct by SHA-1 of the spec")
@@ -301,7 +301,7 @@ def check_mg_cycle(spec, ctx):
 
 @st.composite
 def strat_mg(draw, driver=False):
-    spec = draw(gh.history(dims=(1, 2), pmax=3, max_steps=3, max_levels=4, disparities=(None, 1, 2), bdspecs_mode="any"))
+    spec = draw(gh.history(dims=(1, 2), pmax=4, max_steps=3, max_levels=4, disparities=(None, 1, 2), bdspecs_mode="any"))
     has_faces = bool(spec["bdspecs"])
     spec["c_mass"] = draw(st.sampled_from([0.0, 1.0, 1.0, 100.0] if has_faces else [1.0, 1.0, 100.0, 0.01]))
     spec["f"] = [draw(st.integers(-8, 8)) / 4.0 for _ in range(17)]
